@@ -775,9 +775,10 @@ class Message:
             parsed.hostname.count(".") == 3
             and all(c in "0123456789." for c in parsed.hostname)
             and all(
-                # non-empty, and numerically <= 255 (without converting
-                # arbitrarily long digit strings)
-                x != "" and len(x.lstrip("0")) <= 3 and int(x[-3:]) <= 255
+                # a dec-octet of RFC 3986: one to three digits (so nothing
+                # arbitrarily long or empty is converted), no leading zero,
+                # numerically <= 255 -- "01.2.3.4" is a registered name
+                0 < len(x) <= 3 and (x == "0" or x[0] != "0") and int(x) <= 255
                 for x in parsed.hostname.split(".")
             )
         )
